@@ -4,7 +4,7 @@ CFG = dict(
     imports=["From Verif.C21 Require Import Model Spec.", "Close Scope N_scope."],
     checker="check_case",
     harness_dirs=["C19", "C21"],
-    n=dict(quick=140, thorough=6000),
+    n=dict(quick=140, thorough=1680),
     shard=18,
     rule="even cases (block stream): one block of 4/8 addresses and 8-25 operations of the REAL allocationBlock methods "
          "(autoAssign with reserved ordinals, assign, release with ReleaseOptions{Address,Handle,SequenceNumber} incl. stale "
